@@ -1271,3 +1271,39 @@ def rule_p10(repo, res):
                                 "instance attributes of the original (the parser's .errors list) come back as extra pairs of the copy, "
                                 "which is then longer than, and unequal to, the original", where=f"pvl/collections.py:{bad.lineno}"))
     res.floor("copy / reduction hooks examined for P10", n, 2)
+
+
+def rule_ne(repo, res):
+    """M4-NE: inequality is the negation of equality: `__ne__` of the container, if defined, returns `not (self == other)` /
+    `not self.__eq__(other)` and nothing else.  A shortcut of its own (comparing dict key orders, lengths) can disagree
+    with __eq__ -- the dict storage keeps keys in first-insertion order, the item list in list order -- and nested blocks
+    are compared with != inside __eq__."""
+    ci = repo.cls(CONTAINER)
+    fn = ci.methods.get("__ne__")
+    if fn is None:
+        res.oblige("M4-NE", f"{CONTAINER} defines no __ne__ of its own (Python derives it from __eq__)", ok=True, nontrivial=False)
+        return
+    rets = [r for r in ast.walk(fn) if isinstance(r, ast.Return)]
+    ok = len(rets) == 1 and norm(rets[0].value).replace(" ", "") in ("not(self==other)", "notself==other", "notself.__eq__(other)")
+    res.oblige("M4-NE", f"{CONTAINER}.__ne__ is exactly `not (self == other)`", ok=ok)
+    if not ok:
+        res.add(Finding("M4-NE", f"{CONTAINER}.__ne__", "inequality decided by something other than __eq__",
+                        f"{CONTAINER}.__ne__ has {len(rets)} return(s) ({[norm(r, 40) for r in rets][:3]}): a path that does not go through "
+                        "__eq__ can call two containers with identical pairs different (nested blocks are compared with != inside "
+                        "__eq__), so a deep copy compares unequal to its original", where=f"pvl/collections.py:{fn.lineno}"))
+
+
+def rule_pair_kind(repo, res):
+    """PAIR-KIND: a (key, value) pair handed to the container may be any two-element sequence; the module never tells a pair
+    from a list of pairs by `isinstance(x, tuple)` / `type(x) is tuple` (lists of pairs come from JSON, from list(d)): such a
+    test takes `[["c", 4], ["a", 5]]` for one pair whose key is a list."""
+    mod = repo.module("collections")
+    n = 0
+    for x in ast.walk(mod.tree):
+        if isinstance(x, ast.Call) and norm(x.func) == "isinstance" and len(x.args) == 2 and norm(x.args[1]) == "tuple":
+            n += 1
+            res.add(Finding("PAIR-KIND", "collections", f"`{norm(x, 50)}`",
+                            f"pvl/collections.py tests `{norm(x, 60)}`: pairs given as lists are then not recognised as pairs (or a list of "
+                            "two pairs is taken for one pair), and insert() files an unhashable key in the item list before it fails",
+                            where=f"pvl/collections.py:{x.lineno}"))
+    res.oblige("PAIR-KIND", "no isinstance(.., tuple) test decides the shape of an argument in the container module", ok=n == 0)
